@@ -46,6 +46,7 @@ func runC19(c *Config, r *Report) {
 	c19R7(ic, r)
 	c19R9(ic, r)
 	c19R10(ic, r)
+	c19R11and12(ic, r)
 	// R19.8: the channel operations a debugged program runs (the cancellable variants) store their
 	// results on every path, like the blocking ones (same analysis as C01/R01.8)
 	c01R8(ic, r, "R19.8", map[string]bool{"recv": true, "recv2": true, "send": true, "rangeChan": true, "_select": true})
@@ -967,4 +968,124 @@ func c19R10(ic *IC, r *Report) {
 	if n == 0 {
 		r.Pass("R19.10", "debugger/no-constant-child-index", "", fmt.Sprintf("%d debugger functions, no constant index into node.child", len(units)))
 	}
+}
+
+func init() {
+	ruleText["R19.11"] = "no table is keyed by the code address of an exec closure: the result of reflect.Value.Pointer() is compared, never used as a map key or stored in a map - all the closures generated from one function literal share one code address, so such a table answers with the node of another statement (or another function)"
+	ruleText["R19.12"] = "the debug data of a frame outlives its call: frame.debug is only assigned an allocation (new, &frameDebugData{...}) or another frame's debug data, never nil - deferred calls run after exitCall and read the debug data of the frame that deferred them"
+}
+
+// c19R11: round-6 seed (nodes found by originalExecNode remembered by exec address).
+// c19R12: round-6 seed (exitCall dropped the frame's debug data; deferred interpreted calls crashed under the debugger).
+func c19R11and12(ic *IC, r *Report) {
+	info := ic.Info
+	nPtr := 0
+	var bad []string
+	for _, name := range sortedKeys(ic.F) {
+		fi := ic.F[name]
+		if fi.Decl.Body == nil {
+			continue
+		}
+		// locals holding a code address
+		addr := map[types.Object]bool{}
+		isPtrCall := func(e ast.Expr) bool {
+			c, ok := unparen(e).(*ast.CallExpr)
+			return ok && isCallTo(info, c, "reflect.Value.Pointer", "reflect.Value.UnsafePointer")
+		}
+		ast.Inspect(fi.Decl.Body, func(q ast.Node) bool {
+			if c, ok := q.(*ast.CallExpr); ok && isPtrCall(c) {
+				nPtr++
+			}
+			if as, ok := q.(*ast.AssignStmt); ok && len(as.Lhs) == len(as.Rhs) {
+				for i, rh := range as.Rhs {
+					if isPtrCall(rh) {
+						if id := identOf(as.Lhs[i]); id != nil {
+							addr[info.ObjectOf(id)] = true
+						}
+					}
+				}
+			}
+			return true
+		})
+		isAddr := func(e ast.Expr) bool {
+			if isPtrCall(e) {
+				return true
+			}
+			id := identOf(e)
+			return id != nil && addr[info.ObjectOf(id)]
+		}
+		ast.Inspect(fi.Decl.Body, func(q ast.Node) bool {
+			switch y := q.(type) {
+			case *ast.IndexExpr:
+				if t := info.TypeOf(y.X); t != nil {
+					if _, isMap := t.Underlying().(*types.Map); isMap && isAddr(y.Index) {
+						bad = append(bad, types.ExprString(y)+" in "+name+" at "+ic.pos(y.Pos()))
+					}
+				}
+			case *ast.CallExpr:
+				if o := calleeOf(info, y); o != nil && o.Pkg() != nil && o.Pkg().Path() == "sync" && len(y.Args) > 0 && isAddr(y.Args[0]) {
+					bad = append(bad, types.ExprString(y.Fun)+" in "+name+" at "+ic.pos(y.Pos()))
+				}
+			}
+			return true
+		})
+	}
+	if nPtr < 2 {
+		r.Errorf("R19.11: only %d uses of the code address of a function value found (isExecNode and originalExecNode expected)", nPtr)
+	} else {
+		r.Check(len(bad) == 0, "R19.11", "package/no-table-keyed-by-a-code-address", "", fmt.Sprintf("%d uses of a code address, all comparisons", nPtr),
+			"a table is keyed by the code address of a function value: "+strings.Join(dedupStr(bad), "; ")+". Every closure generated from the same function literal has the same code address (one per generator, not one per node), so the table returns the node of the statement that filled it first: after a second jump of the same shape the debugger follows the wrong function - wrong positions, breakpoints missed or reported on lines that did not execute")
+	}
+	// R19.12
+	dbgFld := ic.field("frame", "debug")
+	if dbgFld == nil {
+		r.Errorf("R19.12: field frame.debug not found")
+		return
+	}
+	nAs := 0
+	var nils []string
+	for _, name := range sortedKeys(ic.F) {
+		fi := ic.F[name]
+		if fi.Decl.Body == nil {
+			continue
+		}
+		ast.Inspect(fi.Decl.Body, func(q ast.Node) bool {
+			as, ok := q.(*ast.AssignStmt)
+			if !ok || len(as.Lhs) != len(as.Rhs) {
+				return true
+			}
+			for i, l := range as.Lhs {
+				if selField(info, l) != dbgFld {
+					continue
+				}
+				nAs++
+				rh := unparen(as.Rhs[i])
+				okv := false
+				switch y := rh.(type) {
+				case *ast.CallExpr:
+					if id := identOf(y.Fun); id != nil && id.Name == "new" {
+						okv = true
+					}
+				case *ast.UnaryExpr:
+					if _, isLit := unparen(y.X).(*ast.CompositeLit); isLit {
+						okv = true
+					}
+				case *ast.SelectorExpr:
+					if selField(info, y) == dbgFld {
+						okv = true
+					}
+				}
+				if !okv {
+					nils = append(nils, types.ExprString(l)+" = "+types.ExprString(rh)+" in "+name+" at "+ic.pos(as.Pos()))
+				}
+			}
+			return true
+		})
+	}
+	if nAs < 2 {
+		r.Errorf("R19.12: only %d assignments of frame.debug found (Debug and enterCall expected)", nAs)
+		return
+	}
+	r.Check(len(nils) == 0, "R19.12", "package/frame-debug-data-never-dropped", "", fmt.Sprintf("%d assignments of frame.debug, all of an allocation or of another frame's data", nAs),
+		"the debug data of a frame is dropped or replaced by something that is not an allocation: "+strings.Join(nils, "; ")+". The deferred calls of a function run after exitCall, in frames whose ancestor is that frame: enterCall reads f.anc.debug.g and the debugged program crashes with a nil dereference as soon as a deferred interpreted function runs")
 }
